@@ -194,9 +194,30 @@ func c10HistString(h []c10Op) string {
 // c10Check replays a history on fresh objects and on a fresh model and compares
 // the complete observation vector.
 func c10Check(h []c10Op) (string, *c10Model, *engine.Fail) {
+	// Value and Has are operations of the history too: the history is also run with every context and key
+	// read just before its last operation (reads must not change what later reads return)
+	if len(h) > 1 {
+		if _, _, f := c10CheckReads(h, true); f != nil {
+			return "", nil, f
+		}
+	}
+	return c10CheckReads(h, false)
+}
+
+func c10CheckReads(h []c10Op, readBeforeLast bool) (string, *c10Model, *engine.Fail) {
 	m := &c10Model{}
 	im := &c10Impl{}
-	for _, o := range h {
+	note := ""
+	for n, o := range h {
+		if readBeforeLast && n == len(h)-1 {
+			note = " (every context and key was read before the last operation)"
+			for i := range im.ctxs {
+				for _, key := range c10Keys {
+					im.ctxs[i].Value(key)
+					im.ctxs[i].Has(key)
+				}
+			}
+		}
 		m.apply(o)
 		im.apply(o)
 	}
@@ -205,10 +226,10 @@ func c10Check(h []c10Op) (string, *c10Model, *engine.Fail) {
 			want := m.value(i, k)
 			got := c10Observe(im.ctxs[i].Value(key))
 			if got != want {
-				return "", m, engine.Failf("mismatch", "after [%s]: c%d.Value(%q) = %v, model says %s", c10HistString(h), i, key, im.ctxs[i].Value(key), c10ValNames[want])
+				return "", m, engine.Failf("mismatch", "after [%s]%s: c%d.Value(%q) = %v, model says %s", c10HistString(h), note, i, key, im.ctxs[i].Value(key), c10ValNames[want])
 			}
 			if im.ctxs[i].Has(key) != (want != c10Nil) {
-				return "", m, engine.Failf("mismatch", "after [%s]: c%d.Has(%q) = %v, model says %v", c10HistString(h), i, key, im.ctxs[i].Has(key), want != c10Nil)
+				return "", m, engine.Failf("mismatch", "after [%s]%s: c%d.Has(%q) = %v, model says %v", c10HistString(h), note, i, key, im.ctxs[i].Has(key), want != c10Nil)
 			}
 		}
 	}
@@ -231,7 +252,7 @@ func init() {
 			return s
 		},
 		Run:  c10Run,
-		Rule: "explicit-state breadth-first search over histories of {root constructor in 5 variants (NewContext, NewContextWith {} / {a:1} / {len:1} / {len:nil}), ci.New() (<=4 contexts alive), ci.Set(k,v) with k in {a,b,len(built-in helper name)} and v in {1,2,nil}}; every transition calls the real API (successor = shortest history replayed on fresh objects + one operation); states are deduplicated on the reference model's state (parent vector + bindings, contexts numbered in creation order); in EVERY state the complete observation vector (Value and Has of every context x key) of the implementation is compared with the model (nearest binding wins, a binding to nil is a binding, Has = value != nil, built-in helper injected at construction only under a name that is not bound - to anything, nil included - along the chain, so that a user's binding of a helper name wins in that context and all descendants, whenever they are created). Non-trivial: histories with >=2 contexts or a nil/len binding.",
+		Rule: "explicit-state breadth-first search over histories of {root constructor in 5 variants (NewContext, NewContextWith {} / {a:1} / {len:1} / {len:nil}), ci.New() (<=4 contexts alive), ci.Set(k,v) with k in {a,b,len(built-in helper name)} and v in {1,2,nil}}; every transition calls the real API (successor = shortest history replayed on fresh objects + one operation); states are deduplicated on the reference model's state (parent vector + bindings, contexts numbered in creation order); every history is run twice - as is, and with every context and key read (Value and Has) just before its last operation, since reads are operations of the history too; in EVERY state the complete observation vector (Value and Has of every context x key) of the implementation is compared with the model (nearest binding wins, a binding to nil is a binding, Has = value != nil, built-in helper injected at construction only under a name that is not bound - to anything, nil included - along the chain, so that a user's binding of a helper name wins in that context and all descendants, whenever they are created). Non-trivial: histories with >=2 contexts or a nil/len binding.",
 		Bound: func(th bool) string {
 			if th {
 				return "histories of <=8 operations after the root constructor, <=4 contexts"
